@@ -11,6 +11,7 @@ import (
 	"path/filepath"
 	"strconv"
 	"strings"
+	"sync"
 	"syscall"
 	"time"
 )
@@ -196,4 +197,123 @@ func Run(o Opts, scratch string, cmd ...string) (*Result, error) {
 		}
 	}
 	return res, nil
+}
+
+// ---- pause-at: hold the traced process before its K-th watched system call ------
+
+// Paused is a traced process that stops before watched call K until Resume.
+type Paused struct {
+	cmd     *exec.Cmd
+	stdin   io.WriteCloser
+	logName string
+	out     *lockedBuf
+	paused  chan string // receives the PAUSED line, closed when the process ends
+	done    chan struct{}
+	resumed bool
+}
+
+type lockedBuf struct {
+	mu sync.Mutex
+	b  bytes.Buffer
+}
+
+func (l *lockedBuf) Write(p []byte) (int, error) { l.mu.Lock(); defer l.mu.Unlock(); return l.b.Write(p) }
+func (l *lockedBuf) String() string              { l.mu.Lock(); defer l.mu.Unlock(); return l.b.String() }
+
+// StartPaused runs cmd under the supervisor with --pause-at k.
+func StartPaused(o Opts, k int, scratch string, cmd ...string) (*Paused, error) {
+	sg := Sysgate()
+	if sg == "" {
+		return nil, fmt.Errorf("VERIF_SYSGATE not set")
+	}
+	logf, err := os.CreateTemp(scratch, "sysgate-*.log")
+	if err != nil {
+		return nil, err
+	}
+	logf.Close()
+	args := []string{}
+	for _, w := range o.Watch {
+		args = append(args, "--watch", w)
+	}
+	args = append(args, "--pause-at", strconv.Itoa(k), "--log", logf.Name(), "--")
+	args = append(args, cmd...)
+	c := exec.Command(sg, args...)
+	c.Env = append(os.Environ(), o.Env...)
+	c.Dir = o.Dir
+	c.SysProcAttr = &syscall.SysProcAttr{Setpgid: true}
+	stdin, err := c.StdinPipe()
+	if err != nil {
+		return nil, err
+	}
+	pr, pw, err := os.Pipe()
+	if err != nil {
+		return nil, err
+	}
+	c.Stdout = pw
+	c.Stderr = pw
+	if err := c.Start(); err != nil {
+		pw.Close()
+		pr.Close()
+		return nil, err
+	}
+	pw.Close()
+	p := &Paused{cmd: c, stdin: stdin, logName: logf.Name(), out: &lockedBuf{}, paused: make(chan string, 1), done: make(chan struct{})}
+	go func() {
+		sc := bufio.NewScanner(pr)
+		sc.Buffer(make([]byte, 1<<16), 1<<22)
+		sent := false
+		for sc.Scan() {
+			l := sc.Text()
+			_, _ = p.out.Write([]byte(l + "\n"))
+			if !sent && strings.HasPrefix(l, "PAUSED ") {
+				sent = true
+				p.paused <- l
+			}
+		}
+		pr.Close()
+		_ = c.Wait()
+		close(p.paused)
+		close(p.done)
+	}()
+	return p, nil
+}
+
+// WaitPaused returns the PAUSED line, or "" if the process ended (or the limit
+// passed) without reaching call K.
+func (p *Paused) WaitPaused(limit time.Duration) (string, bool) {
+	select {
+	case l, ok := <-p.paused:
+		if ok && l != "" {
+			return l, true
+		}
+		return "", false
+	case <-time.After(limit):
+		return "", false
+	}
+}
+
+// Resume lets the held process continue.
+func (p *Paused) Resume() {
+	if !p.resumed {
+		p.resumed = true
+		_, _ = p.stdin.Write([]byte("\n"))
+		_ = p.stdin.Close()
+	}
+}
+
+// Wait returns when the process has ended (killing it after limit).
+func (p *Paused) Wait(limit time.Duration) (exit int, output string, timedOut bool) {
+	select {
+	case <-p.done:
+	case <-time.After(limit):
+		timedOut = true
+		_ = syscall.Kill(-p.cmd.Process.Pid, syscall.SIGKILL)
+		<-p.done
+	}
+	_ = syscall.Kill(-p.cmd.Process.Pid, syscall.SIGKILL)
+	os.Remove(p.logName)
+	if p.cmd.ProcessState != nil {
+		exit = p.cmd.ProcessState.ExitCode()
+	}
+	return exit, p.out.String(), timedOut
 }
